@@ -202,3 +202,9 @@ def run(ctx):
     # ---- the same search loop on BINARY64 score tables of the real built-in scorers (Model/Generic.v at Model/GenericF.v), bit for bit ----
     from harness import floatstreams
     floatstreams.sbs_float_stream(ctx, ctx.n(30, 200))
+
+    from harness.variants import variants_stream
+    from skchange.change_detectors import SeededBinarySegmentation as _SBS
+    from skchange.costs import L2Cost as _L2
+    variants_stream(ctx, "SeededBinarySegmentation(CUSUM)", lambda: _SBS(min_segment_length=2), ctx.n(3, 20))
+    variants_stream(ctx, "SeededBinarySegmentation(L2Cost)", lambda: _SBS(change_score=_L2(), min_segment_length=3, max_interval_length=40), ctx.n(2, 12))
